@@ -23,7 +23,7 @@ class Native:
         self.exe = os.path.join(workdir, "drv")
         here = os.path.dirname(os.path.dirname(os.path.abspath(__file__)))
         p = subprocess.run(["clang++-14", "-std=c++17", "-O1", "-I", os.path.join(here, "mock"),
-                            '-DMATLAB_H_PATH="/repo/matlab.h"', os.path.join(here, "mock", "rt", "driver.cpp"), "-o", self.exe],
+                            '-DMATLAB_H_PATH="%s/matlab.h"' % os.environ.get("GTWRAP_REPO", "/repo"), os.path.join(here, "mock", "rt", "driver.cpp"), "-o", self.exe],
                            capture_output=True, text=True)
         self.ok = p.returncode == 0
         self.err = p.stderr[-1500:]
